@@ -5,14 +5,26 @@
  * (stubs_ec_kernels.h).  PROVED about ec_encode_data_<isa> / ec_encode_data_update_<isa>, for every ghost
  * row g_l < rows, every 1 <= k <= 255, 0 <= rows <= 255, every len >= 0 (loop closed by contract):
  *   - len below the vector width of the ISA: exactly one call of the portable ec_encode_data[_update]_base
- *     with all arguments unchanged, no kernel call;
- *   - otherwise: no fallback call, and exactly one kernel call produces row g_l (g_hits == 1); that call
- *     uses the table g_tbls + g_l*k*STRIDE (g_hit_tbl) and the destination block coding[g_l] (g_hit_dst);
+ *     with all six/seven arguments unchanged, no kernel call;
+ *   - otherwise: no fallback call, and exactly one kernel call produces row g_l (g_hits == 1), into the
+ *     destination block coding[g_l] (N-row kernels: by slot position; 1-row kernels: by pointer value);
+ *     the table that call uses for row 0 is g_tbls, and the tables used for rows g_l and g_l+1 are exactly
+ *     k*STRIDE bytes apart (STRIDE 32, or 8 for *_gfni)  ==>  by induction on the row (mechanised as the lemma
+ *     harness eg_stride_lemma) the table of row r is g_tbls + r*k*STRIDE;
  *     every kernel call gets the caller's len, k, (vec_i,) data (stub requires, checked per call site),
- *     reads only slots inside coding[0..rows) and table bytes inside g_tbls[0 .. rows*k*STRIDE)
- *     (stub r_ok requires against exact is_fresh sizes), and a 1-row call writes one of the caller's blocks;
+ *     touches only slots inside coding[0..rows), and a 1-row call writes one of the caller's `rows` blocks;
+ *     consequently every table block a kernel reads is g_tbls + r*k*STRIDE for an r < rows;
  *   - the glue itself writes nothing but ghost state (assigns clause).
- * The output blocks must be pairwise distinct (requires; stated for the ghost row). */
+ * Input shaping (harness): the pointer array has 256 slots with block r = g_arena + r, i.e. pairwise distinct
+ * block pointers with a computable row (the glue never inspects or modifies block pointers, so any injective
+ * choice is representative); only the first `rows` slots count: a use of a slot >= rows violates a stub
+ * precondition.  The table object is at least 65536*STRIDE bytes (the glue never dereferences it; this only
+ * keeps its pointer arithmetic inside one object; the exact bound rows*k*STRIDE follows from the statement).
+ *
+ * Why "row 0 + constant stride" instead of the closed form r*k*STRIDE in the contract: with the closed form
+ * the invariant step needs (a+W)*k == a*k + W*k for symbolic a,k (25..230 s of SAT per harness, minisat /
+ * cadical / kissat), and the form offset == done*k*STRIDE needs the three-variable distributive law, which
+ * no back end closed in 20 min.  The stride form is linear; the one multiplication lemma is proved once. */
 #ifndef EC_GLUE_H
 #define EC_GLUE_H
 #include <limits.h>
@@ -27,61 +39,51 @@
         g_t0 = g_tbls;                                                                             \
         g_c0 = coding;                                                                             \
         g_data = (void *) data;                                                                    \
-        g_dst = (g_l < rows) ? coding[g_l] : (unsigned char *) 0;                                  \
         g_hits = 0;                                                                                \
         g_base_calls = 0;
 
-#define EG_TBL_MAX(STRIDE) ((size_t) EG_MAXROWS * 255 * (STRIDE))
-#define EG_GHOSTS g_t0, g_c0, g_data, g_dst, g_hits, g_hit_tbl, g_base_calls
+#define EG_TBL_MAX(STRIDE) ((size_t) 65536 * (STRIDE))
+#define EG_GHOSTS g_t0, g_c0, g_data, g_hits, g_hit_tbl, g_hit_tbl2, g_base_calls
+#define EG_DONE (g_rows - rows) /* rows already handled, inside the loop */
+#define EG_S(STRIDE) ((size_t) k * (STRIDE)) /* table bytes per row */
 
-#ifdef EG_NOQ
-#define EG_DISTINCT
-#else
-#define EG_DISTINCT                                                                                \
-        __CPROVER_requires(__CPROVER_forall {                                                      \
-                int r_;                                                                            \
-                (0 <= r_ && r_ < EG_MAXROWS) ==>                                                   \
-                        ((r_ < rows && g_l < rows && r_ != g_l) ==> coding[r_] != coding[g_l])     \
-        })
-#endif
 #define EG_CONTRACT(STRIDE, THR, DATA_BYTES, EXTRA_REQ)                                            \
         __CPROVER_requires(0 <= len && 1 <= k && k <= 255 && 0 <= rows && rows <= EG_MAXROWS)      \
         __CPROVER_requires(0 <= g_l && g_l < EG_MAXROWS)                                           \
         __CPROVER_requires(g_len == len && g_k == k && g_rows == rows)                             \
         __CPROVER_requires(EXTRA_REQ)                                                              \
-        __CPROVER_requires(g_toff == EG_PROD(g_l, k) * (STRIDE))                                   \
-        __CPROVER_requires(g_tsize >= EG_TBL_MAX(STRIDE) && g_tsize <= 0xffffffffUL)              \
+        __CPROVER_requires(g_tsize >= EG_TBL_MAX(STRIDE) && g_tsize <= 0xffffffffUL)               \
         __CPROVER_requires(__CPROVER_is_fresh(g_tbls, g_tsize))                                    \
         __CPROVER_requires(__CPROVER_is_fresh(data, (DATA_BYTES)))                                 \
-        EG_DISTINCT                                                                                \
         __CPROVER_assigns(EG_GHOSTS)                                                               \
         __CPROVER_ensures(len < (THR) ==> (g_base_calls == 1 && g_hits == 0))                      \
         __CPROVER_ensures(len >= (THR) ==> g_base_calls == 0)                                      \
         __CPROVER_ensures((len >= (THR) && g_l < rows) ==> g_hits == 1)                            \
-        __CPROVER_ensures((len >= (THR) && g_l < rows) ==>                                         \
-                          g_hit_tbl == g_tbls + g_toff)
+        __CPROVER_ensures((len >= (THR) && g_l == 0 && 0 < rows) ==> g_hit_tbl == g_tbls)          \
+        __CPROVER_ensures((len >= (THR) && g_l + 1 < rows) ==>                                     \
+                          EG_PTR_AT(g_hit_tbl2, g_hit_tbl, EG_S(STRIDE)))
 
 #define EG_ENC(STRIDE, THR) EG_CONTRACT(STRIDE, THR, (size_t) k * sizeof(*data), 1)
 #define EG_UPD(STRIDE, THR)                                                                        \
         EG_CONTRACT(STRIDE, THR, (size_t) len, 0 <= vec_i && vec_i < k && g_vec_i == vec_i)
 
-/* the batching loop: rows already handled = g_rows - rows */
+/* the batching loop */
 #define EG_LOOP(STRIDE)                                                                            \
-        __CPROVER_assigns(rows, g_tbls, coding, g_hits, g_hit_tbl)                                 \
+        __CPROVER_assigns(rows, g_tbls, coding, g_hits, g_hit_tbl, g_hit_tbl2)                     \
         __CPROVER_loop_invariant(0 <= rows && rows <= g_rows)                                      \
         __CPROVER_loop_invariant(__CPROVER_same_object(coding, __CPROVER_loop_entry(coding)) &&    \
                                  __CPROVER_same_object(g_tbls, __CPROVER_loop_entry(g_tbls)))      \
         __CPROVER_loop_invariant(__CPROVER_POINTER_OFFSET(coding) ==                               \
-                                 (size_t) (g_rows - rows) * sizeof(*coding))                       \
+                                 (size_t) EG_DONE * sizeof(*coding))                               \
         __CPROVER_loop_invariant(__CPROVER_POINTER_OFFSET(g_tbls) <=                               \
-                                 (size_t) (g_rows - rows) * (255 * (STRIDE)))                      \
-        __CPROVER_loop_invariant(g_l >= g_rows - rows ==>                                          \
-                                 __CPROVER_POINTER_OFFSET(g_tbls) +                                \
-                                                 EG_PROD(g_l - (g_rows - rows), k) * (STRIDE) ==   \
-                                         g_toff)                                                   \
-        __CPROVER_loop_invariant(g_hits == ((g_l < g_rows - rows) ? 1 : 0))                        \
-        __CPROVER_loop_invariant(g_l < g_rows - rows ==>                                           \
-                                 g_hit_tbl == __CPROVER_loop_entry(g_tbls) + g_toff)               \
+                                 (size_t) EG_DONE * (255 * (STRIDE)))                              \
+        __CPROVER_loop_invariant(EG_DONE == 0 ==> g_tbls == __CPROVER_loop_entry(g_tbls))          \
+        __CPROVER_loop_invariant(g_hits == ((g_l < EG_DONE) ? 1 : 0))                              \
+        __CPROVER_loop_invariant((g_l == 0 && 0 < EG_DONE) ==>                                     \
+                                 g_hit_tbl == __CPROVER_loop_entry(g_tbls))                        \
+        __CPROVER_loop_invariant(g_l + 1 < EG_DONE ==>                                             \
+                                 EG_PTR_AT(g_hit_tbl2, g_hit_tbl, EG_S(STRIDE)))                   \
+        __CPROVER_loop_invariant(g_l + 1 == EG_DONE ==> EG_PTR_AT(g_tbls, g_hit_tbl, EG_S(STRIDE))) \
         __CPROVER_decreases(rows)
 #define EG_HOOK                                                                                    \
         {                                                                                          \
@@ -139,43 +141,65 @@
 #define H_ec_encode_data_update_avx2_gfni_1 EG_HOOK
 
 /* ---------------------------------------------------------------- ec_init_tables_gfni
- * For every coefficient position n = i*k + j < rows*k and every byte x: the 8-byte little-endian word n of
- * g_tbls is the GF2P8AFFINEQB matrix of "multiply by a[n]" (stated with the bit-level spec of the
- * instruction, spec_gf_affine, and the polynomial product spec_gf_mul -- not with the table the code reads);
- * frame: exactly 8*k*rows bytes of g_tbls; a is read-only. */
-extern int g_n;             /* ghost coefficient position */
+ * For every coefficient position n < rows*k and every byte x: the 8-byte little-endian word n of g_tbls is the
+ * GF2P8AFFINEQB matrix of "multiply by a[n]" (stated with the bit-level spec of the instruction,
+ * spec_gf_affine, and the polynomial product spec_gf_mul -- not with the table the code reads);
+ * frame: exactly 8*k*rows bytes of g_tbls; a (exactly k*rows bytes) is read-only.
+ * Invariants are written in "bytes remaining" form so that the only product identity needed is
+ * x*k == (x-1)*k + k (entry of the inner loop); positions are pointer offsets, not i*k+j. */
+extern size_t g_n;          /* ghost coefficient position */
+extern size_t g_asize;      /* k*rows */
 extern unsigned char g_x;   /* ghost multiplicand */
 extern unsigned char *g_a0; /* a at entry (snapshot by assignment) */
 
+#define EGI_FRAME __CPROVER_object_upto(g_tbls, g_asize * sizeof(uint64_t))
+#define EGI_LOOP_FRAME __CPROVER_object_whole(g_tbls)
+#define EGI_COMMON                                                                                 \
+        __CPROVER_loop_invariant(__CPROVER_same_object(a, g_a0) &&                                 \
+                                 __CPROVER_same_object(g64, g_t0))                                 \
+        __CPROVER_loop_invariant(__CPROVER_POINTER_OFFSET(a) <= g_asize)                           \
+        __CPROVER_loop_invariant(__CPROVER_POINTER_OFFSET(g64) == 8 * __CPROVER_POINTER_OFFSET(a)) \
+        __CPROVER_loop_invariant(g_n < __CPROVER_POINTER_OFFSET(a) ==>                             \
+                                 ((uint64_t *) g_tbls)[g_n] == gf_table_gfni[g_a0[g_n]])
+
 #define C_ec_init_tables_gfni                                                                      \
         __CPROVER_requires(0 <= k && k <= 255 && 0 <= rows && rows <= EG_MAXROWS)                  \
-        __CPROVER_requires(g_k == k && g_rows == rows && 0 <= g_n)                                 \
-        __CPROVER_requires(__CPROVER_is_fresh(a, (size_t) k * (size_t) rows))                      \
-        __CPROVER_requires(__CPROVER_is_fresh(g_tbls, 8 * (size_t) k * (size_t) rows))             \
-        __CPROVER_assigns(g_a0; __CPROVER_object_upto(g_tbls, 8 * (size_t) k * (size_t) rows))     \
-        __CPROVER_ensures(g_n < k * rows ==>                                                       \
+        __CPROVER_requires(g_asize == EG_PROD(rows, k))                                            \
+        __CPROVER_requires(__CPROVER_is_fresh(a, g_asize))                                         \
+        __CPROVER_requires(__CPROVER_is_fresh(g_tbls, g_asize * sizeof(uint64_t)))                                \
+        __CPROVER_assigns(g_a0, g_t0; EGI_FRAME)                                                         \
+        __CPROVER_ensures(g_n < g_asize ==>                                                        \
                           spec_gf_affine(((uint64_t *) g_tbls)[g_n], g_x) == spec_gf_mul(a[g_n], g_x))
-#define E_ec_init_tables_gfni g_a0 = a;
+#define E_ec_init_tables_gfni                                                                      \
+        g_a0 = a;                                                                                  \
+        g_t0 = g_tbls;
 #define L_ec_init_tables_gfni_1                                                                    \
-        __CPROVER_assigns(i, j, a, g64, __CPROVER_object_upto(g_tbls, 8 * (size_t) k * (size_t) rows)) \
+        __CPROVER_assigns(i, j, a, g64, EGI_LOOP_FRAME)                                                 \
         __CPROVER_loop_invariant(0 <= i && i <= rows)                                              \
-        __CPROVER_loop_invariant(__CPROVER_same_object(a, g_a0) && __CPROVER_same_object(g64, g_tbls)) \
-        __CPROVER_loop_invariant(__CPROVER_POINTER_OFFSET(a) == (size_t) i * (size_t) k)           \
-        __CPROVER_loop_invariant(__CPROVER_POINTER_OFFSET(g64) == 8 * (size_t) i * (size_t) k)     \
-        __CPROVER_loop_invariant(g_n < i * k ==>                                                   \
-                                 ((uint64_t *) g_tbls)[g_n] == gf_table_gfni[g_a0[g_n]])           \
+        EGI_COMMON                                                                                 \
+        __CPROVER_loop_invariant(g_asize - __CPROVER_POINTER_OFFSET(a) == EG_PROD(rows - i, k))    \
         __CPROVER_decreases(rows - i)
 #define H_ec_init_tables_gfni_1 VCANARY();
 #define L_ec_init_tables_gfni_2                                                                    \
-        __CPROVER_assigns(j, a, g64, __CPROVER_object_upto(g_tbls, 8 * (size_t) k * (size_t) rows)) \
+        __CPROVER_assigns(j, a, g64, EGI_LOOP_FRAME)                                                    \
         __CPROVER_loop_invariant(0 <= j && j <= k)                                                 \
-        __CPROVER_loop_invariant(__CPROVER_same_object(a, g_a0) && __CPROVER_same_object(g64, g_tbls)) \
-        __CPROVER_loop_invariant(__CPROVER_POINTER_OFFSET(a) == (size_t) i * (size_t) k + (size_t) j) \
-        __CPROVER_loop_invariant(__CPROVER_POINTER_OFFSET(g64) ==                                  \
-                                 8 * ((size_t) i * (size_t) k + (size_t) j))                       \
-        __CPROVER_loop_invariant(g_n < i * k + j ==>                                               \
-                                 ((uint64_t *) g_tbls)[g_n] == gf_table_gfni[g_a0[g_n]])           \
+        EGI_COMMON                                                                                 \
+        __CPROVER_loop_invariant(g_asize - __CPROVER_POINTER_OFFSET(a) ==                          \
+                                 EG_PROD(rows - i - 1, k) + (size_t) (k - j))                      \
         __CPROVER_decreases(k - j)
-#define H_ec_init_tables_gfni_2 VCANARY();
+/* Re-anchoring: after the loop-contract havoc CBMC no longer knows which object a and g64 point into and a
+ * dereference fans out over every object of the program (136 M clauses).  The two assignments below are
+ * identities -- asserted first, so they are proved not to change the program state -- that restore the
+ * value sets from the entry snapshots. */
+#define H_ec_init_tables_gfni_2                                                                    \
+        {                                                                                          \
+                size_t oa_ = __CPROVER_POINTER_OFFSET(a), og_ = __CPROVER_POINTER_OFFSET(g64);     \
+                unsigned char *ra_ = g_a0 + oa_;                                                   \
+                uint64_t *rg_ = (uint64_t *) (g_t0 + og_);                                         \
+                __CPROVER_assert(a == ra_ && g64 == rg_, "ghost re-anchoring is the identity");    \
+                a = ra_;                                                                           \
+                g64 = rg_;                                                                         \
+                VCANARY();                                                                         \
+        }
 
 #endif
